@@ -291,21 +291,21 @@ where
     /// Get a blob by its key.
     /// Returns `Ok(None)` if the key does not exist.
     pub fn get(&self, key: &K) -> Result<Option<bytes::Bytes>, LibError> {
-        self.with_blob_item(key, |item| self.cas_manager.read_blob(&item.blob_hash))
+        self.with_blob_file(key, |item, file| self.cas_manager.read_blob(&item.blob_hash, file))
     }
 
     /// Get the size of a blob by its key.
     /// Returns `Ok(None)` if the key does not exist.
     /// Uses index metadata only; no blob I/O.
     pub fn get_size(&self, key: &K) -> Result<Option<u64>, LibError> {
-        self.with_blob_item(key, |item| Ok(item.blob_size))
+        Ok(self.index.read_state().get_item(key).map(|item| item.blob_size))
     }
 
     /// Get a `BufReader` by key.
     /// Returns `Ok(None)` if the key does not exist.
     /// Safe to hold for long periods, will stream data even if the key was deleted.
     pub fn get_reader(&self, key: &K) -> Result<Option<BufReader<File>>, LibError> {
-        self.with_blob_item(key, |item| self.cas_manager.blob_bufreader(&item.blob_hash))
+        self.with_blob_file(key, |_item, file| Ok(BufReader::new(file)))
     }
 
     /// Get a range of bytes from a blob.
@@ -320,13 +320,19 @@ where
         range_start: u64,
         range_end: u64,
     ) -> Result<Option<bytes::Bytes>, LibError> {
-        self.with_blob_item(key, |item| {
+        // A range that starts at or beyond the end is empty and needs no blob I/O.
+        match self.get_size(key)? {
+            None => return Ok(None),
+            Some(size) if range_start >= size => return Ok(Some(bytes::Bytes::new())),
+            Some(_) => {}
+        }
+        self.with_blob_file(key, |item, file| {
             if range_start >= item.blob_size {
                 return Ok(bytes::Bytes::new());
             }
             let range_end = std::cmp::min(range_end, item.blob_size);
 
-            self.cas_manager.read_blob_range(&item.blob_hash, range_start, range_end)
+            self.cas_manager.read_blob_range(&item.blob_hash, file, range_start, range_end)
         })
     }
 
@@ -383,15 +389,25 @@ where
         self.index.checkpoint(CheckpointReason::Explicit).map_err(LibError::Index)
     }
 
-    fn with_blob_item<T, F>(&self, key: &K, f: F) -> Result<Option<T>, LibError>
+    /// Looks `key` up and opens its blob file while the index read guard is still held, then
+    /// runs `f` on the open file without the guard. Opening under the guard is what makes reads
+    /// atomic with respect to writers: a blob is unlinked only after the index stopped
+    /// referencing it, which needs the write lock, so the path cannot disappear between the
+    /// lookup and the open; once open, the file outlives any later unlink.
+    fn with_blob_file<T, F>(&self, key: &K, f: F) -> Result<Option<T>, LibError>
     where
-        F: FnOnce(&IndexStateItem) -> Result<T, CasManagerError>,
+        F: FnOnce(&IndexStateItem, File) -> Result<T, CasManagerError>,
     {
-        let Some(item) = self.index.read_state().get_item(key) else {
-            return Ok(None);
+        let (item, opened) = {
+            let state = self.index.read_state();
+            let Some(item) = state.get_item(key) else {
+                return Ok(None);
+            };
+            let opened = self.cas_manager.open_blob(&item.blob_hash);
+            (item, opened)
         };
 
-        match f(&item) {
+        match opened.and_then(|file| f(&item, file)) {
             Ok(result) => Ok(Some(result)),
             Err(cas_error) => {
                 if let Some(io_err) =
